@@ -14,7 +14,7 @@ MODULES = ["FlVerif.Props.C12"]
 NAMESPACE = "C12"
 TIE_A = ["Setter.value"]
 RULE = ("operation sequences {defuzzify(batch of injected defuzzified values through a stub defuzzifier returning a 1-D "
-        "array / 0-d array / numpy scalar / Python float), defuzzify(raises), clear, enable/disable} x 12 settings "
+        "array / 0-d array / numpy scalar / Python float), defuzzify(raises), clear, enable/disable} x 16 settings "
         "(lock-previous x default in {NaN, in range, out of range} x lock-range); exhaustive: every value sequence of "
         "length <= 4 over {NaN, in range, below, above, second in-range value} under EVERY split into successive calls; "
         "plus a random stream with +-inf values, failures and clear(). non-trivial: at least one NaN row is filled "
@@ -29,7 +29,7 @@ LEVEL_TEXT = ("Lean theorems about Op.commit, a statement-by-statement model of 
               "followed by a call on ys, hence under every split into calls/batches), batch_eq_rows, "
               "previous_is_last_before_call, disabled_untouched, raise_unchanged, clear_resets, clip_idempotent, "
               "locked_in_range. Correspondence: the implementation is driven through the same operation sequences as the "
-              "Lean model (exhaustive up to length 4 for all 12 settings and all splits) and compared exactly.")
+              "Lean model (exhaustive up to length 4 for all 16 settings (lock-previous x lock-range x default in {NaN, 0.75, 3.0 (out of range), 0.0}) and all splits) and compared exactly.")
 LEVEL_NOTE = ("Trusted: Lean kernel, standard axioms, the hand-written Op.Cascade model (tied to variable.py only by the "
               "correspondence run), numpy.nditer/clip semantics. The stub defuzzifier stands for any defuzzifier; what the "
               "real defuzzifiers return is covered by C09/C10/C02.")
@@ -37,7 +37,7 @@ TECHNIQUE = "Lean 4 proof (list induction) about a code-shaped model of OutputVa
 
 NAN = math.nan
 POOL = [NAN, 0.5, -1.0, 2.0, 0.25]
-DEFAULTS = [NAN, 0.75, 3.0]
+DEFAULTS = [NAN, 0.75, 3.0, 0.0]      # 0.0: a legal default that is falsy in Python
 
 
 class Boom(RuntimeError):
@@ -283,7 +283,7 @@ def correspond(ctx):
             viol_keys.add(k)
             mism.append({"case": case, "violation": True, "detail": detail, "what": detail})
     ctx.notes["exhaustive"] = True
-    ctx.notes["exhaustive_space"] = f"all value sequences of length <= {ctx.scale(4, 5)} over {len(POOL)} values x all splits x 12 settings"
+    ctx.notes["exhaustive_space"] = f"all value sequences of length <= {ctx.scale(4, 5)} over {len(POOL)} values x all splits x 16 settings"
     return mism
 
 
